@@ -146,6 +146,7 @@ Section Funs.
   Variable slm : slmode.
   Variable dfm ddm : N.
   Variable own : bool.
+  Variable fixed : bool.
 
   (* a computation that only reads *)
   Definition readonly {A : Type} (m : M A) : Prop :=
